@@ -637,6 +637,12 @@ func (cl *cluster) handle(c *simConn, frame []byte) {
 	cl.reqNo++
 	api := apiName(h.api)
 	switch h.api {
+	case 8, 9, 11, 12, 13, 14:
+		c.mu.Lock()
+		c.groupAPI = true // the connection of the Broker object the client uses as group coordinator
+		c.mu.Unlock()
+	}
+	switch h.api {
 	case 0:
 		cl.handleProduce(c, h, len(frame))
 		return
